@@ -83,7 +83,17 @@ Inductive call :=
 | CFree (mem : Z)
 | CMap (mem off size result : Z)
 | CUnmap (mem : Z)
-| CFlush (inval : bool) (mem off size result : Z).
+| CFlush (inval : bool) (mem off size result : Z)
+| CCreate (image : bool) (res result : Z)
+| CDestroy (image : bool) (res : Z)
+| CReq (image : bool) (res : Z)
+| CBind (image : bool) (res mem off result : Z).
+
+(* the memory requirements the simulated device reports for a resource (simvk.ResReq) *)
+Record resreq := mkResreq { rq_size : Z; rq_align : Z; rq_tb : Z; rq_reqded : bool; rq_prefded : bool }.
+
+(* a live buffer or image; ids share one creation counter; kind 1 buffer, 2 linear image, 3 optimal image *)
+Record dres := mkDres { rs_id : Z; rs_kind : Z; rs_req : resreq; rs_bound : bool; rs_bmem : Z; rs_boff : Z }.
 
 Record mach := mkMach {
   m_mems : list dmem;          (* live objects, ascending id *)
@@ -91,21 +101,25 @@ Record mach := mkMach {
   m_fault : fault;
   m_fired : Z;                 (* FaultsFired during this step *)
   m_bud : Budget.bstate;
-  m_calls : list call          (* newest first *)
+  m_calls : list call;         (* newest first *)
+  m_res : list dres;           (* live resources *)
+  m_next_res : Z               (* resources ever created (nextRes) *)
 }.
 
 Definition set_mems (m : mach) (l : list dmem) : mach :=
-  mkMach l (m_next m) (m_fault m) (m_fired m) (m_bud m) (m_calls m).
+  mkMach l (m_next m) (m_fault m) (m_fired m) (m_bud m) (m_calls m) (m_res m) (m_next_res m).
 Definition set_next (m : mach) (n : Z) : mach :=
-  mkMach (m_mems m) n (m_fault m) (m_fired m) (m_bud m) (m_calls m).
+  mkMach (m_mems m) n (m_fault m) (m_fired m) (m_bud m) (m_calls m) (m_res m) (m_next_res m).
 Definition set_fault (m : mach) (f : fault) (fired : Z) : mach :=
-  mkMach (m_mems m) (m_next m) f fired (m_bud m) (m_calls m).
+  mkMach (m_mems m) (m_next m) f fired (m_bud m) (m_calls m) (m_res m) (m_next_res m).
 Definition set_bud (m : mach) (b : Budget.bstate) : mach :=
-  mkMach (m_mems m) (m_next m) (m_fault m) (m_fired m) b (m_calls m).
+  mkMach (m_mems m) (m_next m) (m_fault m) (m_fired m) b (m_calls m) (m_res m) (m_next_res m).
 Definition log_call (m : mach) (k : call) : mach :=
-  mkMach (m_mems m) (m_next m) (m_fault m) (m_fired m) (m_bud m) (k :: m_calls m).
+  mkMach (m_mems m) (m_next m) (m_fault m) (m_fired m) (m_bud m) (k :: m_calls m) (m_res m) (m_next_res m).
 Definition clear_calls (m : mach) : mach :=
-  mkMach (m_mems m) (m_next m) (m_fault m) (m_fired m) (m_bud m) [].
+  mkMach (m_mems m) (m_next m) (m_fault m) (m_fired m) (m_bud m) [] (m_res m) (m_next_res m).
+Definition set_res (m : mach) (l : list dres) (n : Z) : mach :=
+  mkMach (m_mems m) (m_next m) (m_fault m) (m_fired m) (m_bud m) (m_calls m) l n.
 
 Fixpoint find_mem (l : list dmem) (id : Z) : option dmem :=
   match l with
@@ -205,6 +219,65 @@ Definition dev_flush (m : mach) (inval : bool) (id off size : Z) : mach * Z :=
     let '(f1, fired1, r) := dev_fault (m_fault m) (m_fired m) (if inval then 11 else 10) in
     let m1 := set_fault m f1 fired1 in
     (log_call m1 (CFlush inval id off size r), r)
+  end.
+
+(* ---- resources *)
+
+Fixpoint find_res (l : list dres) (id : Z) : option dres :=
+  match l with
+  | [] => None
+  | r :: tl => if rs_id r =? id then Some r else find_res tl id
+  end.
+
+Fixpoint remove_res (l : list dres) (id : Z) : list dres :=
+  match l with
+  | [] => []
+  | r :: tl => if rs_id r =? id then tl else r :: remove_res tl id
+  end.
+
+Fixpoint replace_res (l : list dres) (nr : dres) : list dres :=
+  match l with
+  | [] => []
+  | r :: tl => if rs_id r =? rs_id nr then nr :: tl else r :: replace_res tl nr
+  end.
+
+(* Device.CreateResource (vkCreateBuffer / vkCreateImage): (machine, result code, id) *)
+Definition dev_create_res (m : mach) (image : bool) (kind : Z) (req : resreq) : mach * Z * Z :=
+  let '(f1, fired1, r) := dev_fault (m_fault m) (m_fired m) (if image then 7 else 6) in
+  let m1 := set_fault m f1 fired1 in
+  if negb (r =? 0) then (log_call m1 (CCreate image 0 r), r, 0)
+  else
+    let id := m_next_res m1 + 1 in
+    if DEV_TABLE <=? id then (log_call (set_res m1 (m_res m1) id) (CCreate image 0 VK_OOHM), VK_OOHM, 0)
+    else (log_call (set_res m1 (m_res m1 ++ [mkDres id kind req false 0 0]) id) (CCreate image id 0), 0, id).
+
+(* Device.DestroyResource *)
+Definition dev_destroy_res (m : mach) (image : bool) (id : Z) : mach :=
+  log_call (set_res m (remove_res (m_res m) id) (m_next_res m)) (CDestroy image id).
+
+(* Device.Requirements *)
+Definition dev_requirements (m : mach) (image : bool) (id : Z) : mach * resreq :=
+  (log_call m (CReq image id),
+   match find_res (m_res m) id with Some r => rs_req r | None => mkResreq 0 0 0 false false end).
+
+(* Device.Bind: (machine, result code) *)
+Definition dev_bind (m : mach) (image : bool) (res mem off : Z) : mach * Z :=
+  match find_res (m_res m) res, find_mem (m_mems m) mem with
+  | Some r, Some _ =>
+    let '(f1, fired1, code) := dev_fault (m_fault m) (m_fired m) (if image then 5 else 4) in
+    let m1 := set_fault m f1 fired1 in
+    if negb (code =? 0) then (log_call m1 (CBind image res mem off code), code)
+    else
+      (log_call (set_res m1 (replace_res (m_res m1) (mkDres (rs_id r) (rs_kind r) (rs_req r) true mem off)) (m_next_res m1))
+                (CBind image res mem off 0), 0)
+  | _, _ => (log_call m (CBind image res mem off VK_UNKNOWN), VK_UNKNOWN)
+  end.
+
+(* Device.ForgetBinding (harness bookkeeping on the device) *)
+Definition dev_forget_binding (m : mach) (res : Z) : mach :=
+  match find_res (m_res m) res with
+  | Some r => set_res m (replace_res (m_res m) (mkDres (rs_id r) (rs_kind r) (rs_req r) false (rs_bmem r) (rs_boff r))) (m_next_res m)
+  | None => m
   end.
 
 (* what vkGetPhysicalDeviceMemoryProperties2 reports for a heap: (usage, budget) *)
